@@ -32,10 +32,14 @@ TRUSTED = ["pickle.dump/load is the identity on int, bool, list of [str,int,int]
            "configparser write/read round trip of the .sav file",
            "the key-press thread is replaced by an inert stand-in that never reads stdin; the quit is pcfg.should_exit set from the "
            "print_guess wrapper (for a loop that polls thread liveness the stand-in's is_alive() is `not should_exit`); thread "
-           "timing and stdin are C12's subject"]
-ASSUMES = ["wf_tables G, first_below_max G", "a further pre-terminal is popped after the interrupted level (else nothing is saved: R18)",
-           "the pop that follows does not have exactly the level's probability (else the level is in C08's tied group and is "
-           "regenerated once)"]
+           "timing and stdin are C12's subject",
+           "session shards: the model's queue is pop_follow over the pop order the implementation showed (only the order inside groups "
+           "of equal probability is taken from the implementation; C15_follow_pop_ok: it meets the heap contract for every order)"]
+ASSUMES = ["wf_tables G, first_below_max G", "a further pre-terminal is popped after the interrupted level (else nothing is saved: R18, "
+           "C15_last_level_not_saved)",
+           "C15_then_rest / C15_tied_level_repeats: well-formed ruleset (NextSpec.wf), any two queues meeting the heap contract "
+           "(pop_ok_okb), sound Optimizer memo tables in both processes; the tied case (the pop that follows has exactly the level's "
+           "probability) is covered by the theorems, not excluded"]
 
 MARKOV_SYMBOLS = ["ω", "ψ", "λ", "ж", "ф", "ξ"]    # disjoint from every terminal of rulesets.py
 
@@ -392,7 +396,7 @@ def explore(ctx, rs, om, buckets, sc, dist, cases, samples, max_cuts, two_cases,
             evaluations += 1
             dist["cuts"] += 1
             dist["cuts_" + kind] += 1
-            if kind in ("ok", "tied", "last") and not R1["error"] and not R2["error"] and "model" in U:
+            if not R1["error"] and not R2["error"] and "model" in U:
                 # the same history for the combined session model (MarkovSession.v)
                 saved_here = bool(R1["pops"]) and R1["pops"][-1] is not None and "omen_guess_number" in gi and state is not None
                 ms["cases"].append({"k": pop_index, "j": j - a + 1, "a": a, "b": b, "cut": j,
@@ -669,7 +673,9 @@ def run(ctx):
             "print_guess wrapper), new PcfgGrammar + run(load_session=True) on the written .sav/.omn; oracle: restored part = remainder "
             "of the level exactly, nothing after it lost, the level not regenerated unless tied with the saved probability; for two cuts "
             "per level a second quit (inside the remainder / outside the level) and a third run: no replay; non-trivial = the cut is "
-            "strictly inside the level; distinct by (ruleset, cut list)")
+            "strictly inside the level; distinct by (ruleset, cut list); every such cut is also run through the combined session model "
+            "MarkovSession.v (interrupted output, saved max_probability / omen_guess_number / .omn, resumed output and pop sequence "
+            "compared exactly, the model's queue following the implementation inside groups of equal probability)")
     return {"evaluations": evaluations, "distinct_nontrivial": nontrivial, "rule": rule, "samples": samples,
             "corr": corr, "violations": vio, "dist": dict(dist)}
 
